@@ -232,3 +232,48 @@ package websockets
 //@ func createShimChannel props(C12,C13,C07)
 //@   requires openWebsocketWrapper != nil
 //@   ensures r0 != nil
+
+// ---- the two relay goroutines of a connection (C11, C07) ----
+// reader: every message read from the backend websocket is queued for the client unchanged (same type, same bytes -
+// the slice ReadMessage returned, which nobody else holds), in read order, exactly once.
+//@ func NewConnection$1 props(C11,C12,C07)
+//@   requires serverConn != nil && serverMessages != nil && !closed(serverMessages) && ctx != nil
+//@   ghost reads int = 0
+//@   ghost sent int = 0
+//@   ghost lt int = 0
+//@   ghost lb []byte
+//@   call (*websocket.Conn).ReadMessage
+//@     assert[C11:one-read-per-queued-message] sent == reads && arg0 == serverConn
+//@     do reads = reads + 1
+//@     do lt = ret0
+//@     do lb = ret1
+//@   send serverMessages
+//@     assert[C11:server-message-queued-unchanged] arg0 == serverMessages && arg1 != nil && !allocated0(arg1) && arg1.Type == lt && arg1.Data == lb && sent == reads - 1
+//@     do sent = sent + 1
+//@   call (*websocket.Conn).NextReader
+//@     assert[C11:whole-messages-only] false
+// rely: serverMessages is local to NewConnection and this deferred close is its only close site, so the error callback
+// cannot close it; nor can it reassign this closure's captured variables (they are not visible to it).
+//@   call funcvalue:func(err error)
+//@     assume serverMessages == old(serverMessages) && !closed(serverMessages) && serverConn == old(serverConn) && ctx == old(ctx)
+//@   loop 1
+//@     invariant[C11:reader-progress] sent == reads && serverMessages != nil && !closed(serverMessages) && serverConn != nil && ctx != nil
+
+// writer: every non-nil message taken from the client queue is written to the backend with the same type and bytes,
+// in queue order; nil entries (placeholders for malformed input) are skipped and never dereferenced.
+//@ func NewConnection$2 props(C11,C12,C07)
+//@   requires serverConn != nil && clientMessages != nil && ctx != nil
+//@   ghost cur *message = nil
+//@   ghost curOK bool = false
+//@   ghost taken int = 0
+//@   ghost written int = 0
+//@   recv clientMessages
+//@     assert[C11:only-client-queue] arg0 == clientMessages
+//@     do cur = ret0
+//@     do curOK = ret1
+//@     do taken = taken + 1
+//@   call (*websocket.Conn).WriteMessage
+//@     assert[C11:client-message-written-unchanged] curOK && cur != nil && arg0 == serverConn && arg1 == cur.Type && arg2 == cur.Data && written < taken
+//@     do written = written + 1
+//@   loop 1
+//@     invariant[C11:writer-progress] written <= taken && serverConn != nil && clientMessages != nil && ctx != nil
